@@ -19,18 +19,21 @@ def prefixes(xs):
     return out
 JCMD = "http://yang.juniper.net/junos/jcmd"
 
-def stmt(name, comment=None, active=None, body="reject", order="comment-first", dupxmlns=False, extra=False):
-    attrs = [["xmlns:jcmd", JCMD]]
+def stmt(name, comment=None, active=None, body="reject", order="comment-first", dupxmlns=False, extra=False, nspfx="jcmd"):
+    # the prefix the namespace of the two attributes is bound to is the router's choice: "jcmd" as Junos writes it,
+    # another one, or two prefixes for the one namespace (comment under one, active under the other)
+    pc, pa = {"jcmd": ("jcmd", "jcmd"), "other": ("j", "j"), "two": ("jcmd", "cmd")}[nspfx]
+    attrs = [[f"xmlns:{pc}", JCMD]] + ([[f"xmlns:{pa}", JCMD]] if pa != pc else [])
     a = []
     if comment is not None:
-        a.append(["jcmd:comment", comment])
+        a.append([f"{pc}:comment", comment])
     if active is not None:
-        a.append(["jcmd:active", active])
+        a.append([f"{pa}:active", active])
     if order == "active-first":
         a.reverse()
     attrs += a
     if dupxmlns:
-        attrs.append(["xmlns:jcmd", JCMD])
+        attrs.append([f"xmlns:{pc}", JCMD])
     if extra:
         attrs.append(["junos:changed-seconds", "1709120869"])
     return {"name": name, "attrs": attrs, "body": body}
@@ -336,9 +339,11 @@ def shape_scenarios(cases, prop):
         w = irr.asset_with(["b"], []) if wrapped else ""
         com = com.format(e=e, w=w) if com else None
         # escaped characters in names now and then, and names that begin or end with a blank (quoted names may)
-        name = {3: "shape<&>\"'", 5: f" lead-{k}", 6: f"trail-{k} "}.get(k % 7, f"shape-{k}")
-        st = stmt(name, com, None if sh["active"] == "absent" else sh["active"], RAW_BODY.get(sh["body"], sh["body"]), sh["order"], sh["dupxmlns"], sh["extra"])
-        why = " ".join(f"{a}={sh[a]}" for a in ("active", "comment", "body"))
+        # ... and names that contain text which looks like a reference (the name IS "AT&amp;T", written "AT&amp;amp;T")
+        name = {3: "shape<&>\"'", 5: f" lead-{k}", 6: f"trail-{k} ", 1: f"AT&amp;T-{k}", 2: f"pni-&#65;&lt;{k}&gt;"}.get(k % 7, f"shape-{k}")
+        st = stmt(name, com, None if sh["active"] == "absent" else sh["active"], RAW_BODY.get(sh["body"], sh["body"]), sh["order"], sh["dupxmlns"], sh["extra"],
+                  sh.get("nspfx", "jcmd"))
+        why = " ".join(f"{a}={sh[a]}" for a in ("active", "comment", "body")) + ("" if sh.get("nspfx", "jcmd") == "jcmd" else f" prefix={sh['nspfx']}")
         pol = {name: exp(c["sel"], c["marked"], "ok" if c["sel"] else "none", (["a", "b"] if wrapped else ["a"]) if c["sel"] else [], ["c"] if c["sel"] else [],
                          (f"{e} OR {w}" if wrapped else e) if c["sel"] else "", why),
                "control": exp(True, True, "ok", ["d"], [], ctl, "control"),
